@@ -50,7 +50,9 @@ impl Property for C11 {
         let root = Rng::new(seed);
         let mut cfg_rng = root.fork("cfg");
         let mut f = Features::draw(&mut cfg_rng);
+        // generic container sorts stay off: see DESIGN §6 (encoder gaps outside the explored fragment)
         f.containers = false;
+        f.nested_containers = false;
         f.set_funcs = false;
         f.bool_funcs = false;
         f.nomerge = false;
@@ -75,6 +77,40 @@ impl Property for C11 {
                 ops.push(format!("(@bad {})", faults::gen_f5(&mut g, &all).replace('\n', " ")));
             }
             ops.push(op.clone());
+        }
+        if cfg_rng.chance(1, 3) {
+            // tables whose only rebuildable columns are containers of e-classes: a function
+            // from base values to a container, and a relation over one; a union then makes a
+            // stored element non-canonical and every mode must rebuild the stored container
+            let mut t = root.fork("contfn");
+            let (sort, mk): (&str, fn(&str, &str) -> String) = match t.below(3) {
+                0 => ("Vec", |a, b| format!("(vec-of {a} {b})")),
+                1 => ("Set", |a, b| format!("(set-of {a} {b})")),
+                _ => ("MultiSet", |a, b| format!("(multiset-of {a} {b})")),
+            };
+            ops.push("(datatype M11__ (N11__ i64) (V11__) (Z11__))".into());
+            ops.push(format!("(sort C11__ ({sort} M11__))"));
+            ops.push("(function best11__ (i64) C11__ :merge new)".into());
+            ops.push("(constructor wrap11__ (C11__) M11__)".into());
+            let (a, b) = if t.chance(1, 2) { ("(V11__)", "(Z11__)") } else { ("(Z11__)", "(V11__)") };
+            ops.push(a.to_string());
+            ops.push(b.to_string());
+            let n = 1 + t.below(3);
+            for i in 0..n {
+                ops.push(format!("(set (best11__ {i}) {})", mk(&format!("(N11__ {i})"), "(V11__)")));
+            }
+            if t.chance(1, 2) {
+                ops.push(format!("(wrap11__ {})", mk("(N11__ 0)", "(V11__)")));
+            }
+            ops.push("(union (V11__) (Z11__))".into());
+            if t.chance(1, 2) {
+                ops.push(g.gen_run().to_string());
+            }
+            for i in 0..n {
+                ops.push(format!("(check (= (best11__ {i}) {}))", mk(&format!("(N11__ {i})"), "(Z11__)")));
+            }
+            ops.push(format!("(check (= (wrap11__ {}) (wrap11__ {})))", mk("(N11__ 0)", "(V11__)"), mk("(N11__ 0)", "(Z11__)")));
+            ops.push("(print-size best11__)".into());
         }
         ops.push("(print-size)".into());
         case.ops = ops;
